@@ -81,6 +81,44 @@ def m_codeblock(case, clause, detail, finding):
     return case.get("api") == "lfric" and _dup_match(case, clause, "codeblock")
 
 
+def m_alg_stencil_varname(case, clause, detail, finding):
+    '''LFRic `Alg` class path: a stencil extent or direction written as a
+    structure component or array element (st%n1, nv(2)) is passed by the
+    generated algorithm call under the name of the PSy-layer dummy (st_n1, nv):
+    the actual is not an argument of the invoke and is not the written
+    object.'''
+    if case.get("path") != "alg" or case.get("api") != "lfric":
+        return False
+    if clause not in ("ActualsFromInvoke", "DataFlow"):
+        return False
+    acts, dums = case["actuals"], case["dummies"]
+    if len(acts) != len(dums):
+        return False
+    texts = [(t, k) for call, kinds in zip(case["source_invoke"],
+                                           case.get("source_kinds", []))
+             for t, k in zip(call[1:], kinds)]
+    known = {_canon(t) for t, _ in texts}
+    # stencil extents / directions spelled with a component or an index
+    derived = {_canon(t) for t, k in texts
+               if k in ("extent", "dir") and ("%" in t or "(" in t)}
+    foreign = [i for i, a in enumerate(acts) if _canon(a) not in known]
+    if not foreign or len(foreign) > len(derived):
+        return False
+    # every foreign actual is spelled exactly like the dummy at its position,
+    # and the written objects it stands for are not passed at all
+    if any(acts[i].lower() != dums[i].lower() for i in foreign):
+        return False
+    if any(_canon(a) in derived for a in acts):
+        return False
+    if clause == "DataFlow":
+        k, j = detail["k"] - 1, detail["j"] - 1
+        kind = case["source_kinds"][k][j]
+        text = case["source_invoke"][k][j + 1]
+        return (kind in ("extent", "dir") and _canon(text) in derived
+                and detail["pos"] - 1 in foreign)
+    return True
+
+
 def m_name_prefix(case, clause, detail, finding):
     '''PSyIR-based algorithm layer only: invoke label starting with "invoke"
     but not with "invoke_": the algorithm calls <label>, the PSy layer defines
@@ -112,6 +150,7 @@ def m_named_single_builtin(case, clause, detail, finding):
 
 MATCHERS = {"c24_psyir_member_case": m_member_case,
             "c24_psyir_codeblock": m_codeblock,
+            "c24_alg_stencil_varname": m_alg_stencil_varname,
             "c24_psyir_name_prefix": m_name_prefix,
             "c24_psyir_named_single_builtin": m_named_single_builtin}
 
@@ -177,6 +216,7 @@ def _describe(shape, path, api, iidx, case):
     return {"api": api, "path": path, "shape": shape["id"],
             "family": shape["fam"], "invoke": iidx, "label": inv["name"],
             "source_invoke": [[c["k"]] + c["args"] for c in inv["calls"]],
+            "source_kinds": [c["kinds"] for c in inv["calls"]],
             "call": gen.dec(case["call"]),
             "actuals": [gen.dec(a) for a in case["acts"]],
             "subs": [gen.dec(s) for s in case["subs"]],
@@ -210,6 +250,7 @@ def validate(cases, cov, tmp, workers=None):
 def _run_shapes(out, cov, tmp, shapes, dm, stats):
     '''Generate every shape with the real generator, itemise, let TLC judge.'''
     decoded = [(gen.decode_shape(s), s["api"]) for s in shapes]
+    gen.prepare_kernels(tmp)
     jobs = [(d, api, dm, tmp) for d, api in decoded]
     results = core.pool_map(gen.work, jobs, procs=_procs(), chunksize=2)
     cases = []
@@ -357,8 +398,13 @@ def run(tier):
                    "kernel-argument provenance, source texts) tuples")
     return out.finish(cov, assumptions=[
         "family bounds: InvokeBinding.tla Part 2 (13 field texts, 11 scalar "
-        "texts, 5 labels; LFRic pair/scalar/double and GOcean gopair/goscalar "
-        "families; quick = every 3rd shape, offset VERIF_SEED)",
+        "texts, 8 stencil-extent, 5 direction, 4 quadrature, 4 integer texts, "
+        "5 labels; LFRic pair/scalar/double/extra and GOcean gopair/goscalar "
+        "families; quick = every 3rd shape (every 6th of the extra family), "
+        "offset VERIF_SEED)",
+        "TypeAgree compares the declared type class of each PSy dummy with the "
+        "kind (kernel signature in the spec) of the object written as the "
+        "actual at the same position; LFRic only",
         "kernel-argument provenance is read from the generated PSy text: "
         "X_data => X_proxy%data, X_proxy = D%get_proxy() gives dummy D; scalars "
         "and literals directly; built-ins by their documented assignment form",
